@@ -1089,6 +1089,10 @@ class StubsStringGenerator:
                     in_package = True
                     break
 
+            # Enums of the package are declared in the stub of their module as well
+            if not in_package and import_qname_path in self.api.enums:
+                in_package = True
+
             qname = qname or import_qname
 
             if not in_package:
